@@ -145,6 +145,62 @@ func genSpecCases(prop, tier, out string, sum *Summary, g *Gen, depth int) {
 		sh.Add(fmt.Sprintf("SC %d %s %s %s %s %s", id, coqR(e), hx(text), coqValue(doc), unordered, coqObs(o)))
 		sum.Index[strconv.Itoa(id)] = map[string]any{"expr": text, "doc": toJSON(doc), "observed": obsJSON(o)}
 	}
+	// deterministic families with their own documents
+	type fam struct {
+		e   *R
+		doc any
+	}
+	var fams []fam
+	if prop == "C01" {
+		// slices: every combination of omitted / zero / positive / negative start and stop with every sign of step,
+		// on an array with a null element, on a string of mixed-width characters, bare and after a projection
+		arr := jsonDoc(`{"a": [1, null, 3, "x", 5], "s": "héllo", "m": [[1, 2, 3], "abc", [null, 4]]}`)
+		opt := []*int64{nil, ip(0), ip(1), ip(-1), ip(2), ip(-2), ip(5), ip(-5)}
+		steps := []*int64{nil, ip(1), ip(-1), ip(2), ip(-2)}
+		if tier != "thorough" {
+			opt = []*int64{nil, ip(0), ip(1), ip(-1), ip(-2), ip(5)}
+		}
+		for _, a := range opt {
+			for _, b := range opt {
+				for _, st := range steps {
+					fams = append(fams, fam{slc(fld("a"), a, b, st, cur()), arr}, fam{slc(fld("s"), a, b, st, cur()), arr}, fam{proj(PList, fld("m"), slc(cur(), a, b, st, cur())), arr})
+				}
+			}
+		}
+	}
+	// shadowing under projections and filters over arrays of every small length: the innermost binding wins
+	// whatever the number of elements
+	for _, n := range []int{0, 1, 2, 7, 8, 9, 16, 17, 33} {
+		items := make([]any, n)
+		for i := range items {
+			items[i] = json.Number(strconv.Itoa(i))
+		}
+		doc := map[string]any{"items": items, "limit": json.Number("3"), "o": map[string]any{"p": items}}
+		A, T := vr("$a"), vr("$t")
+		outer := func(e *R) *R { return let([]KV{{"$a", raw("outer")}, {"$t", litJ("100")}}, e) }
+		inner := func(e *R) *R { return let([]KV{{"$a", raw("inner")}, {"$t", fld("limit")}}, e) }
+		for _, body := range []*R{proj(PList, fld("items"), sub(cur(), mlist(A))), proj(PFlatten, proj(PList, fld("items"), sub(cur(), mlist(A))), cur()), filt(fld("items"), cmp(">", cur(), T), cur()),
+			filt(fld("items"), cmp("<", cur(), T), sub(cur(), mlist(cur(), A))), proj(PFlatten, fld("items"), sub(cur(), mlist(A, T))), proj(PValues, fld("o"), proj(PList, cur(), sub(cur(), mlist(A)))),
+			call("map", ar(mlist(cur(), A)), av(fld("items")))} {
+			fams = append(fams, fam{outer(inner(body)), doc}, fam{outer(mlist(inner(body), body)), doc}, fam{outer(inner(let([]KV{{"$a", raw("third")}}, body))), doc},
+				fam{inner(outer(body)), doc}, fam{outer(pipe(fld("items"), inner(proj(PList, cur(), sub(cur(), mlist(A, T)))))), doc})
+		}
+	}
+	for _, f := range fams {
+		id++
+		text := unparse(f.e)
+		o := search(text, f.doc)
+		sum.count("families/" + o.Kind)
+		if o.Kind == "val" && o.Value != nil {
+			distinct[text+"|"+toJSON(o.Value)] = true
+		}
+		unordered := "false"
+		if hasEnum(f.e) {
+			unordered = "true"
+		}
+		sh.Add(fmt.Sprintf("SC %d %s %s %s %s %s", id, coqR(f.e), hx(text), coqValue(f.doc), unordered, coqObs(o)))
+		sum.Index[strconv.Itoa(id)] = map[string]any{"expr": text, "doc": toJSON(f.doc), "observed": obsJSON(o)}
+	}
 	sh.Flush()
 	sum.Cases = sh.total
 	sum.Shards = sh.files
